@@ -1,0 +1,24 @@
+//go:build verif
+
+package driver
+
+import "sync/atomic"
+
+// verifPauseFn, when set, is called at named pause points. It exists only in
+// builds with the "verif" tag and lets an external monitor widen the window
+// between two steps that the scheduler may separate anyway.
+var verifPauseFn atomic.Value // of func(point string)
+
+// VerifSetPause installs fn (nil removes it) as the pause-point callback.
+func VerifSetPause(fn func(point string)) {
+	if fn == nil {
+		fn = func(string) {}
+	}
+	verifPauseFn.Store(fn)
+}
+
+func verifPause(point string) {
+	if fn, _ := verifPauseFn.Load().(func(string)); fn != nil {
+		fn(point)
+	}
+}
